@@ -198,11 +198,16 @@ fn gen_cubic9(r: &mut Rng) -> (CubicBez, &'static str) {
     }
 }
 
-fn gen_acc(r: &mut Rng) -> f64 {
-    match r.below(4) {
+/// an accuracy in the property's domain: (1e-8..1) * extent / 10 (a curve without extent - a single
+/// point - takes the magnitude of its coordinates, or 1, in place of the extent)
+fn gen_acc(r: &mut Rng, s: &PathSeg) -> f64 {
+    let rel = match r.below(4) {
         0 => *r.pick(&[1e-8, 1e-6, 1e-4, 1e-3, 1e-2, 0.1, 0.5, 1.0]),
         _ => 10f64.powf(r.uniform(-8.0, 0.0)),
-    }
+    };
+    let e = extent_of(s);
+    let e = if e > 0.0 && e.is_finite() { e } else { scale_of(s, Point::ZERO).max(1.0) };
+    rel * e / 10.0
 }
 
 fn ctrl(s: &PathSeg) -> Vec<Point> {
@@ -647,8 +652,43 @@ fn kind_of(s: &PathSeg) -> &'static str {
     }
 }
 
+/// largest coordinate magnitude among the control points and the query point
 fn scale_of(s: &PathSeg, p: Point) -> f64 {
-    ctrl(s).iter().chain(std::iter::once(&p)).fold(1.0f64, |m, q| m.max(q.x.abs()).max(q.y.abs()))
+    ctrl(s).iter().chain(std::iter::once(&p)).fold(f64::MIN_POSITIVE, |m, q| m.max(q.x.abs()).max(q.y.abs()))
+}
+
+/// extent of the segment: the larger side of the bounding box of its control points
+fn extent_of(s: &PathSeg) -> f64 {
+    let ps = ctrl(s);
+    let (mut x0, mut x1, mut y0, mut y1) = (f64::INFINITY, f64::NEG_INFINITY, f64::INFINITY, f64::NEG_INFINITY);
+    for q in &ps {
+        x0 = x0.min(q.x);
+        x1 = x1.max(q.x);
+        y0 = y0.min(q.y);
+        y1 = y1.max(q.y);
+    }
+    (x1 - x0).max(y1 - y0)
+}
+
+/// The property quantifies over "accuracies 1e-8..1 relative to an extent of order 10", i.e.
+/// accuracy / extent in [1e-9, 0.1]. An accuracy below 1e-9 of the extent is raised to it (the
+/// implementation is then called with the in-domain accuracy), whatever the magnitude of the curve.
+const REL_ACC_MIN: f64 = 1e-9;
+fn domain_acc(s: &PathSeg, acc: f64) -> f64 {
+    acc.max(REL_ACC_MIN * extent_of(s))
+}
+
+/// "plus rounding": the allowance added to `accuracy` in every comparison, C_ROUND times the largest
+/// coordinate magnitude M (control points and query point; at least the extent). binary64 resolves a
+/// coordinate to 1.1e-16 M; the critical-point cubic is built from products of coordinate differences
+/// (magnitude M^2 and M^4/...), and a simple root t* of g is determined by its rounded coefficients only
+/// to about eps * sum|c_i| / |g'(t*)|, which for a query point on the curve is a displacement of about
+/// 2 eps M^2 / |q'(t*)| along it. C_ROUND = 4e-9 covers that conditioning down to speeds |q'| of 1e-6 of
+/// the extent (hairpins, near-cusps), with a factor ~10 for the solver's own arithmetic. Losses beyond it
+/// are reported; they are filed under a known class only when `solve_cubic` is demonstrably the cause.
+const C_ROUND: f64 = 4e-9;
+fn rounding_allowance(s: &PathSeg, p: Point) -> f64 {
+    C_ROUND * scale_of(s, p).max(extent_of(s))
 }
 
 /// the leading coefficients of the critical-point cubic are of rounding size relative to the
@@ -705,7 +745,8 @@ fn robust_quad_nearest(q: &QuadBez, p: Point) -> Nearest {
 }
 
 /// Reference transcription of common.rs::solve_quadratic / solve_cubic (same operations, same order).
-/// `fixed_one_root`: the one-real-root branch as repaired by proposed_fixes/C15-cubic-one-root-cancellation.diff.
+/// `fixed_one_root`: the one-real-root branch as repaired by proposed_fixes/C15-cubic-one-root-cancellation.diff;
+/// `clamp_d0`: with the repair fd4a7ab of /repo (d0 clamped to <= 0 when d >= 0).
 fn ref_solve_quadratic(c0: f64, c1: f64, c2: f64) -> Vec<f64> {
     let sc0 = c0 * c2.recip();
     let sc1 = c1 * c2.recip();
@@ -742,7 +783,7 @@ fn ref_solve_quadratic(c0: f64, c1: f64, c2: f64) -> Vec<f64> {
     }
 }
 
-fn ref_solve_cubic(c0: f64, c1: f64, c2: f64, c3: f64, fixed_one_root: bool) -> Vec<f64> {
+fn ref_solve_cubic(c0: f64, c1: f64, c2: f64, c3: f64, fixed_one_root: bool, clamp_d0: bool) -> Vec<f64> {
     let c3_recip = c3.recip();
     const ONETHIRD: f64 = 1. / 3.;
     let scaled_c2 = c2 * (ONETHIRD * c3_recip);
@@ -757,6 +798,8 @@ fn ref_solve_cubic(c0: f64, c1: f64, c2: f64, c3: f64, fixed_one_root: bool) -> 
     let d2 = c2 * c0 - c1 * c1;
     let d = 4.0 * d0 * d2 - d1 * d1;
     let de = (-2.0 * c2).mul_add(d0, d1);
+    // fix fd4a7ab ("solve_cubic returns finite roots near a triple root")
+    let d0 = if clamp_d0 && d >= 0.0 { d0.min(0.0) } else { d0 };
     if d < 0.0 {
         let sq = (-0.25 * d).sqrt();
         let r = -0.5 * de;
@@ -788,11 +831,13 @@ fn same_bits(a: &[f64], b: &[f64]) -> bool {
 }
 
 /// the implementation's `solve_cubic` answers these coefficients bit for bit like the reference
-/// algorithm (pinned, or with the C15 one-root repair): wrong roots are then a numerical defect of
+/// algorithm (pinned, with or without the C15 repairs of /repo): wrong roots are then a numerical defect of
 /// that algorithm, not a change of the code
 fn solver_is_reference(c: &[f64; 4]) -> bool {
     let got = solve_cubic(c[0], c[1], c[2], c[3]).to_vec();
-    same_bits(&got, &ref_solve_cubic(c[0], c[1], c[2], c[3], false)) || same_bits(&got, &ref_solve_cubic(c[0], c[1], c[2], c[3], true))
+    [(false, false), (false, true), (true, false), (true, true)]
+        .iter()
+        .any(|(one_root, clamp)| same_bits(&got, &ref_solve_cubic(c[0], c[1], c[2], c[3], *one_root, *clamp)))
 }
 
 /// `solve_cubic`, called on the coefficients of the critical-point cubic of (q, p) as the harness
@@ -842,7 +887,7 @@ fn judge(s: &PathSeg, p: Point, acc: f64, n: &Nearest) -> Option<(&'static str, 
         return Some(("distance-not-finite", format!("distance_sq = {}", n.distance_sq)));
     }
     let (truth, tt) = oracle(&|t| s.eval(t), p, &[n.t]);
-    let slack = 4e-9 * scale_of(s, p);
+    let slack = rounding_allowance(s, p);
     let got = n.distance_sq.sqrt();
     let at = dist(s.eval(n.t), p);
     if (got - truth).abs() > acc + slack {
@@ -868,7 +913,7 @@ const KNOWN_REPORTED: u64 = 8;
 /// args: enc_seg ++ [px, py, accuracy]
 fn law_nearest(a: &[f64]) -> Option<(String, String)> {
     let (s, rest) = dec_seg(a);
-    let (p, acc) = (Point::new(rest[0], rest[1]), rest[2]);
+    let (p, acc) = (Point::new(rest[0], rest[1]), domain_acc(&s, rest[2]));
     let k = kind_of(&s);
     let n = match s {
         PathSeg::Line(l) => l.nearest(p, acc),
@@ -925,21 +970,21 @@ fn g_line(r: &mut Rng) -> Vec<f64> {
     let s = PathSeg::Line(gen_line9(r).0);
     let (p, _) = gen_query(r, &s);
     let mut v = enc_seg(&s);
-    v.extend_from_slice(&[p.x, p.y, gen_acc(r)]);
+    v.extend_from_slice(&[p.x, p.y, gen_acc(r, &s)]);
     v
 }
 fn g_quad(r: &mut Rng) -> Vec<f64> {
     let s = PathSeg::Quad(gen_quad9(r).0);
     let (p, _) = gen_query(r, &s);
     let mut v = enc_seg(&s);
-    v.extend_from_slice(&[p.x, p.y, gen_acc(r)]);
+    v.extend_from_slice(&[p.x, p.y, gen_acc(r, &s)]);
     v
 }
 fn g_cubic(r: &mut Rng) -> Vec<f64> {
     let s = PathSeg::Cubic(gen_cubic9(r).0);
     let (p, _) = gen_query(r, &s);
     let mut v = enc_seg(&s);
-    v.extend_from_slice(&[p.x, p.y, gen_acc(r)]);
+    v.extend_from_slice(&[p.x, p.y, gen_acc(r, &s)]);
     v
 }
 fn g_shared(r: &mut Rng) -> Vec<f64> {
@@ -947,7 +992,7 @@ fn g_shared(r: &mut Rng) -> Vec<f64> {
     let s = gen_seg(r);
     let (p, _) = gen_query(r, &s);
     let mut v = enc_seg(&s);
-    v.extend_from_slice(&[p.x, p.y, gen_acc(r)]);
+    v.extend_from_slice(&[p.x, p.y, gen_acc(r, &s)]);
     v
 }
 
